@@ -109,6 +109,15 @@ def find_modifier_predicates(ctx, fn):
                     st = meths[nm].block["stmts"]
                     if len(st) == 1 and A.kind(st[0]) == "Stmt::Expr":
                         res.append((st[0]["0"], "self"))
+                else:
+                    # a named function / associated function taking the spec (a closure turned into a fn)
+                    cands = [g for rel_ in (MOD, PARSING) for g in A.functions(ctx.files[rel_]) if g.name == nm and g.block is not None]
+                    if len(cands) == 1:
+                        g = cands[0]
+                        prm = [A.pat_idents(p_["0"]["pat"]) for p_ in g.node["sig"]["inputs"] if A.kind(p_) == "FnArg::Typed"]
+                        st = g.block["stmts"]
+                        if len(prm) == 1 and len(prm[0]) == 1 and len(st) == 1 and A.kind(st[0]) == "Stmt::Expr":
+                            res.append((st[0]["0"], prm[0][0]))
     return res
 
 
@@ -798,8 +807,11 @@ def rule_traversal(ctx):
                 {},
             )
             continue
+        # helpers of the detector: free functions of the file that themselves call `contains_generics`
+        fam = ["contains_generics"] + [g.name for g in A.functions(f) if g.impl is None and g.block is not None and ".contains_generics(" in A.fn_text(g)]
+        fam_rx = "|".join(re.escape(x) for x in fam)
         for b in bearing:
-            if not re.search(r"\b%s\b[^;]*contains_generics" % re.escape(b), body) and not (b in ("inputs", "elems", "bounds") and "contains_generics" in body):
+            if not re.search(r"\b%s\b[^;]*(?:%s)" % (re.escape(b), fam_rx), body) and not re.search(r"(?:%s)\(&?%s\b" % (fam_rx, re.escape(b)), body) and not (b in ("inputs", "elems", "bounds") and "contains_generics" in body):
                 ctx.report(f"traverse:Type::{v}:{b}", ctx.where(f, arm["pat"]), f"`contains_generics` binds `{b}` of `Type::{v}` but never recurses into it", {})
     # Path: first segment, arguments
     pf = A.get_fn(ctx.files, MOD, "<syn::Path as ContainsGenericsExt>::contains_generics")
